@@ -84,7 +84,7 @@ def scriptOf (t : TickJ) (cg : String) : Script := fun i => (((t.calls.lookup cg
 /-! ### implementation events -/
 
 inductive IEv
-  | i (inst serial : Nat) (arg : String)
+  | i (inst serial : Nat) (arg : String) (resolved : List String)
   | p (inst serial : Nat)
   | d (inst serial now : Nat) (rcg : String)
   | a (inst serial now : Nat) (rcg rs grp : String) (uuid : Int) (deadline : Int) (inv : Bool) (target key : String)
@@ -95,7 +95,7 @@ def parseIEv (j : Json) : IEv :=
   let a := asArr j
   let g (k : Nat) : Json := a.getD k Json.null
   match asStr (g 0) with
-  | "i" => IEv.i (asNat (g 1)) (asNat (g 2)) (asStr (g 3))
+  | "i" => IEv.i (asNat (g 1)) (asNat (g 2)) (asStr (g 3)) ((asArr (g 4)).map asStr)
   | "p" => IEv.p (asNat (g 1)) (asNat (g 2))
   | "d" => IEv.d (asNat (g 1)) (asNat (g 2)) (asNat (g 3)) (asStr (g 4))
   | "x" => IEv.x (asNat (g 1)) (asNat (g 2))
@@ -103,9 +103,9 @@ def parseIEv (j : Json) : IEv :=
       (asInt (g 8)) (asBool (g 9)) (asStr (g 10)) (asStr (g 11))
 
 def IEv.inst : IEv → Nat
-  | .i n _ _ => n | .p n _ => n | .d n _ _ _ => n | .a n _ _ _ _ _ _ _ _ _ _ => n | .x n _ => n
+  | .i n _ _ _ => n | .p n _ => n | .d n _ _ _ => n | .a n _ _ _ _ _ _ _ _ _ _ => n | .x n _ => n
 def IEv.serial : IEv → Nat
-  | .i _ s _ => s | .p _ s => s | .d _ s _ _ => s | .a _ s _ _ _ _ _ _ _ _ _ => s | .x _ s => s
+  | .i _ s _ _ => s | .p _ s => s | .d _ s _ _ => s | .a _ s _ _ _ _ _ _ _ _ _ => s | .x _ s => s
 def IEv.isX : IEv → Bool | .x _ _ => true | _ => false
 def IEv.isRun : IEv → Bool | .d _ _ _ _ => true | .a _ _ _ _ _ _ _ _ _ _ _ => true | _ => false
 def IEv.rcg : IEv → String
@@ -118,7 +118,7 @@ structure ITick where
   run : List IEv
 
 def evJ : IEv → Json
-  | .i n s a => Json.arr #["i", n, s, a]
+  | .i n s a _ => Json.arr #["i", n, s, a]
   | .p n s => Json.arr #["p", n, s]
   | .d n s t r => Json.arr #["d", n, s, t, r]
   | .a n s t r rs g u dl inv tg k => Json.arr #["a", n, s, t, r, rs, g, Json.num u, Json.num dl, inv, tg, k]
@@ -238,7 +238,7 @@ def Uni.uuid (u : Uni) (m : Nat) : Uni × Int :=
 
 def unify1 (u : Uni) (m : MEv) (e : IEv) : Uni :=
   match m, e with
-  | MEv.i o arg, IEv.i n s arg' =>
+  | MEv.i o arg, IEv.i n s arg' _ =>
     if o.plugin == n && arg == arg' then u.bind o s else u.fail s!"init differs: model {repr m} impl {repr e}"
   | MEv.p o, IEv.p n s => if o.plugin == n then u.bind o s else u.fail s!"prerun differs: model {repr m} impl {repr e}"
   | MEv.d o now rcg, IEv.d n s now' rcg' =>
@@ -291,6 +291,7 @@ structure ObjI where
   birth : Int          -- tick of init (−1: at compile time)
   death : Option Nat   -- tick of destruction
   arg : String
+  resolved : List String := []   -- what the `cgroup` argument names when read as the plugins read it (at init time)
 
 /-- per-instance abstract state for the behavioural clauses (pause deadline, suspended chain) -/
 structure Abs where
@@ -364,9 +365,14 @@ def checkTick (c05 : Bool) (c06 : Bool) (c07 : Bool) (rss : List RsJ) (objs : Li
       -- the instance's cgroup unless the action names its own
       for e in acts do
         match e with
-        | IEv.a n _ _ rcg _ _ _ _ _ tg key =>
-          let want := (r.ownL.lookup n).getD rcg
-          if tg != rcg || key != want then v := v ++ ["C11.default_target"]
+        | IEv.a n ser _ rcg _ _ _ _ _ tg key =>
+          -- an action that names no cgroup of its own acts on the instance's cgroup: its `cgroup` argument, read the way the
+          -- core plugins read it (comma split, each part a pattern), names exactly that cgroup - whatever characters the
+          -- cgroup's name contains
+          let ownOk := match r.ownL.lookup n with
+            | some c => key == c
+            | none => (objs.find? fun o => o.serial == ser).map (·.resolved) == some [rcg]
+          if tg != rcg || !ownOk then v := v ++ ["C11.default_target"]
         | _ => pure ()
       -- behaviour of the instance from its own state only (fresh state after absence)
       let sc := scriptOf t p
@@ -436,11 +442,12 @@ def checkTick (c05 : Bool) (c06 : Bool) (c07 : Bool) (rss : List RsJ) (objs : Li
     -- creation: the `cgroup` argument of new action objects
     for e in it.run do
       match e with
-      | IEv.i n _ arg =>
+      | IEv.i n _ arg resolved =>
         if r.cfg.rs.actions.contains n then
           match r.ownL.lookup n with
           | some c => if arg != c then v := v ++ ["C11.default_target"]
-          | none => if !P.contains arg then v := v ++ ["C11.default_target"]
+          -- the default argument names exactly one cgroup, a current match (which one: checked when the action runs)
+          | none => if !(match resolved with | [q] => P.contains q | _ => false) then v := v ++ ["C11.default_target"]
       | _ => pure ()
     -- prerun on every tick: every plugin object of an instance that exists after this tick was prerun on
     -- this tick, before it ran
@@ -458,13 +465,13 @@ def checkTick (c05 : Bool) (c06 : Bool) (c07 : Bool) (rss : List RsJ) (objs : Li
 
 def collectObjs (compile : List IEv) (ticks : List ITick) : List ObjI := Id.run do
   let mut objs : List ObjI := compile.filterMap fun e => match e with
-    | IEv.i n s a => some { serial := s, inst := n, birth := -1, death := none, arg := a }
+    | IEv.i n s a rs => some { serial := s, inst := n, birth := -1, death := none, arg := a, resolved := rs }
     | _ => none
   let mut k := 0
   for t in ticks do
     for e in t.pre ++ t.run do
       match e with
-      | IEv.i n s a => objs := objs ++ [{ serial := s, inst := n, birth := Int.ofNat k, death := none, arg := a }]
+      | IEv.i n s a rs => objs := objs ++ [{ serial := s, inst := n, birth := Int.ofNat k, death := none, arg := a, resolved := rs }]
       | IEv.x _ s => objs := objs.map fun o => if o.serial == s then { o with death := some k } else o
       | _ => pure ()
     k := k + 1
